@@ -61,6 +61,24 @@ def node_spec(rng, prv=True, master_ok=True):
     return "%s:%s:%s:%d:%d:%s:%s" % (cls, hx(key), hx(chain), depth, index, t, fp), k
 
 
+def _decodes(b):
+    try:
+        b.decode("utf-8")
+        return True
+    except UnicodeDecodeError:
+        return False
+
+
+def lift_x_any(x):
+    """a y with (x, y) on secp256k1, or None"""
+    P_ = 2 ** 256 - 2 ** 32 - 977
+    if not 0 < x < P_:
+        return None
+    y2 = (pow(x, 3, P_) + 7) % P_
+    y = pow(y2, (P_ + 1) // 4, P_)
+    return y if y * y % P_ == y2 else None
+
+
 def payload(version, depth, fp, index, chain, key33):
     return version.to_bytes(4, "big") + bytes([depth]) + fp + index.to_bytes(4, "big") + chain + key33
 
@@ -166,6 +184,52 @@ def _cases_core(rng, tier):
                 spec = "%s:%s:%s:%d:%d:%s:%s" % (cls, hx(key33 if not prv else k.to_bytes(32, "big")), hx(f_["chain"]),
                                                   f_["depth"], f_["index"], "1" if name in VERS_TEST else "0", hx(f_["fp"]))
                 yield "xk_ser %s - %s %d" % (spec, "prv" if prv else "pub", ALL[name]), "field-extreme-ser-" + field
+    # 78-byte payloads that READ AS TEXT (every byte 7-bit, or printable, or the whole a valid UTF-8 sequence): for each
+    # version whose four bytes allow it (decided by trying), every other field is drawn from that alphabet, the public
+    # key's x by search.  The bytes form of parse() must still read them as the raw serialisation.
+    def _from(alpha, n_):
+        return bytes(rng.choice(alpha) for _ in range(n_))
+
+    def _utf8(n_):
+        out = b""
+        while len(out) < n_:
+            c = rng.choice(["é", "ñ", "a", "Z", "7", "語", "ü"]).encode()
+            if len(out) + len(c) <= n_:
+                out += c
+        return out
+    for name in ALL:
+        prv = name.endswith("prv")
+        vb = ALL[name].to_bytes(4, "big")
+        for label, gen, test in (("7bit", lambda n_: _from(range(1, 0x80), n_), lambda b: b.isascii()),
+                                 ("utf8", _utf8, lambda b: _decodes(b))):
+            if not test(vb):
+                continue
+            for _try in range(400):
+                body = gen(32)
+                if prv:
+                    k_ = int.from_bytes(body, "big")
+                    if not 0 < k_ < N:
+                        continue
+                    key33 = b"\x00" + body
+                    break
+                y_ = lift_x_any(int.from_bytes(body, "big"))
+                if y_ is not None:
+                    key33 = bytes([2 + (y_ & 1)]) + body
+                    break
+            else:
+                continue
+            depth = gen(1)[0]
+            fp, idx, chain = gen(4), int.from_bytes(gen(4), "big"), gen(32)
+            pl = payload(ALL[name], depth, fp, idx, chain, key33)
+            if not (test(pl) or prv):
+                continue
+            cls = "P" if prv else "p"
+            tn = "1" if name in VERS_TEST else "0"
+            yield "xk_parse %s %s b %s" % (cls, tn, hx(pl)), "payload-reads-as-text-" + label
+            yield "xk_parse %s %s s %s" % (cls, tn, sx(b58check_enc(pl))), "payload-reads-as-text-" + label
+            yield "xk_parse %s %s io %s" % (cls, tn, hx(pl)), "payload-reads-as-text-" + label
+            spec = "%s:%s:%s:%d:%d:%s:%s" % (cls, hx(key33[1:] if prv else key33), hx(chain), depth, idx, tn, hx(fp))
+            yield "xk_ser %s - %s %d" % (spec, "prv" if prv else "pub", ALL[name]), "payload-reads-as-text-ser-" + label
     # extended keys whose Base58Check TEXT has an interior, aligned block of the zero digit '1' (the chain code is
     # solved for it, common.solve_zero_block): block-wise / padded encoders lose or invent such digits
     for name in (["xpub", "tprv", "zpub"] if tier == "quick" else list(ALL)):
